@@ -11,6 +11,12 @@ package dataset
 // same multiset of values in v (now) as in w (in the pre-state)
 //@ pred DInv(d *Dataset) := same(d.Count, xf(real(len(d.Values)))) && AllFinite(d.Values) && (d.sorted ==> Sorted(d.Values))
 
+// the rank q*(n-1) lies within [0, n-1]
+//@ lemma RankRange(q real, m real)
+//@   serves C20
+//@   requires 0.0 <= q && q <= 1.0 && m >= 0.0
+//@   ensures 0.0 <= q * m && q * m <= m
+
 //@ func NewDataset
 //@   serves C20
 //@   ensures result != nil && fresh(result) && len(result.Values) == 0 && DInv(result)
@@ -38,9 +44,11 @@ package dataset
 //@ func Dataset.LowerQuantile
 //@   serves C20
 //@   requires DInv(d)
+//@   hint RankRange(real(q), real(len(d.Values) - 1))
 //@   ensures DInv(d) && len(d.Values) == old(len(d.Values))
 //@   ensures nan: (!(q >= 0.0 && q <= 1.0) || len(d.Values) == 0) ==> isnan(result)
 //@   ensures unchanged-on-nan: (!(q >= 0.0 && q <= 1.0) || len(d.Values) == 0) ==> arr(d.Values) == old(arr(d.Values))
+//@   ensures rank: q >= 0.0 && q <= 1.0 && len(d.Values) > 0 ==> same(q * (d.Count - 1.0), xf(real(q) * real(len(d.Values) - 1))) && 0 <= floor(real(q) * real(len(d.Values) - 1)) && floor(real(q) * real(len(d.Values) - 1)) <= len(d.Values) - 1
 //@   ensures value: q >= 0.0 && q <= 1.0 && len(d.Values) > 0 ==> Sorted(d.Values) && same(result, d.Values[floor(real(q) * real(len(d.Values) - 1))])
 //@   ensures perm: forall x float64 :: OccX(contents(d.Values), off(d.Values), off(d.Values) + len(d.Values), x) == old(OccX(contents(d.Values), off(d.Values), off(d.Values) + len(d.Values), x))
 //@   modifies d.sorted, arr(d.Values)
@@ -48,15 +56,18 @@ package dataset
 //@ func Dataset.UpperQuantile
 //@   serves C20
 //@   requires DInv(d)
+//@   hint RankRange(real(q), real(len(d.Values) - 1))
 //@   ensures DInv(d) && len(d.Values) == old(len(d.Values))
 //@   ensures nan: (!(q >= 0.0 && q <= 1.0) || len(d.Values) == 0) ==> isnan(result)
-//@   ensures value: q >= 0.0 && q <= 1.0 && len(d.Values) > 0 ==> Sorted(d.Values) && same(result, d.Values[0 - floor(0.0 - real(q) * real(len(d.Values) - 1))])
+//@   ensures rank: q >= 0.0 && q <= 1.0 && len(d.Values) > 0 ==> same(q * (d.Count - 1.0), xf(real(q) * real(len(d.Values) - 1))) && 0 <= ceil(real(q) * real(len(d.Values) - 1)) && ceil(real(q) * real(len(d.Values) - 1)) <= len(d.Values) - 1
+//@   ensures value: q >= 0.0 && q <= 1.0 && len(d.Values) > 0 ==> Sorted(d.Values) && same(result, d.Values[ceil(real(q) * real(len(d.Values) - 1))])
 //@   ensures perm: forall x float64 :: OccX(contents(d.Values), off(d.Values), off(d.Values) + len(d.Values), x) == old(OccX(contents(d.Values), off(d.Values), off(d.Values) + len(d.Values), x))
 //@   modifies d.sorted, arr(d.Values)
 
 //@ func Dataset.Quantile
 //@   serves C20
 //@   requires DInv(d)
+//@   hint RankRange(real(q), real(len(d.Values) - 1))
 //@   ensures DInv(d) && len(d.Values) == old(len(d.Values))
 //@   ensures nan: (!(q >= 0.0 && q <= 1.0) || len(d.Values) == 0) ==> isnan(result)
 //@   ensures value: q >= 0.0 && q <= 1.0 && len(d.Values) > 0 ==> Sorted(d.Values) && same(result, d.Values[floor(real(q) * real(len(d.Values) - 1))])
